@@ -375,7 +375,44 @@ def _py_duration_tabulate(ctx) -> None:
         pat = re.compile(core.const("parsing.iso8601", "ISO8601_DURATION"), re.VERBOSE)
         consts = minieval.module_consts(m)
         bad, n = [], 0
-        for text, want in PY_DURATIONS:
+        table = list(PY_DURATIONS)
+        if ctx.tier == "thorough":
+            # generated: every subset of designators with small values, the smallest one given with '.' / ',' fractions of 1-9 digits
+            from fractions import Fraction as Fr
+            units = [("Y", None), ("M", None), ("D", 86400), ("H", 3600), ("M", 60), ("S", 1)]
+            vals = (0, 1, 7, 59)
+            fracs = ("5", "25", "125", "000001", "999999", "1234567", "999999949", "000000501")
+            for mask in range(1, 64):
+                for v in vals:
+                    parts_d, parts_t, y, mo, rest = "", "", 0, 0, Fr(0)
+                    present = [i for i in range(6) if mask >> i & 1]
+                    for i in present:
+                        letter, secs = units[i]
+                        txt = f"{v + i}{letter}"
+                        if i < 3:
+                            parts_d += txt
+                        else:
+                            parts_t += txt
+                        if i == 0:
+                            y = v + i
+                        elif i == 1:
+                            mo = v + i
+                        else:
+                            rest += (v + i) * secs
+                    text = "P" + parts_d + ("T" + parts_t if parts_t else "")
+                    table.append((text, (y, mo, int(rest * 10**6))))
+                    last = present[-1]
+                    if last >= 2 and v == 1:
+                        for fr in fracs:
+                            for sep in ".,":
+                                letter, secs = units[last]
+                                t2 = text[:-1] + sep + fr + letter
+                                exact = rest + Fr(int(fr), 10**len(fr)) * secs
+                                us_ = exact * 10**6
+                                if abs((us_ % 1) - Fr(1, 2)) < Fr(1, 1000):
+                                    continue        # too close to a tie for a float computation: not a reference value
+                                table.append((t2, (y, mo, round(us_))))
+        for text, want in table:
             glob = {**consts, "ISO8601_DURATION": pat, "ParserError": ValueError, "ValueError": ValueError,
                     "Duration": minieval.ClassStub(_new=lambda *a, **k: minieval.Stub(_args=a, _kws=k), _isa=lambda v: False)}
             funcs = {st.name: st for st in m.top() if isinstance(st, ast.FunctionDef)}
